@@ -1124,6 +1124,9 @@ pub fn c20_retry(policy: &[bool], results: &[Result<u64, String>], deadline_clas
         _ => now + std::time::Duration::from_secs(30),
     };
     cctx.trace_context.trace_id = trace::TraceId::from(0x5EED_0000u128 + policy.len() as u128);
+    if (policy.len() + deadline_class as usize) % 2 == 1 {
+        cctx.trace_context.sampling_decision = trace::SamplingDecision::Sampled;
+    }
     let got = catch_unwind(AssertUnwindSafe(|| retry.call(cctx, req.clone()).now_or_never()));
     let got = match got {
         Ok(Some(r)) => match r {
@@ -1185,11 +1188,16 @@ pub fn c20_retry(policy: &[bool], results: &[Result<u64, String>], deadline_clas
             out.viol("C20", "retry-attempt-context-changed", format!("attempt {} carried a different deadline ({d:?} off) than the caller passed", k + 1));
             break;
         }
-        if c.trace_context.trace_id != cctx.trace_context.trace_id {
-            out.viol("C18", "retry-attempt-trace-changed", format!("attempt {} of a retried call carried another trace id", k + 1));
+    }
+    for (k, c) in ctxs.borrow().iter().enumerate() {
+        if c.trace_context.trace_id != cctx.trace_context.trace_id || c.trace_context.sampling_decision != cctx.trace_context.sampling_decision {
+            out.viol("C18", "retry-attempt-trace-changed", format!("attempt {} of a retried call carried trace {:?}/{:?}, the caller supplied {:?}/{:?}", k + 1, c.trace_context.trace_id, c.trace_context.sampling_decision, cctx.trace_context.trace_id, cctx.trace_context.sampling_decision));
+            out.viol("C20", "retry-attempt-context-changed", format!("attempt {} carried another trace context than the caller passed", k + 1));
             break;
         }
     }
+    out.nontrivial("C18");
+    out.nontrivial("C07");
     out.cell(format!("C20.retry.deadline-class{deadline_class}"));
     out.nontrivial("C07");
     out.count("retry_attempts", calls.len() as u64);
